@@ -257,7 +257,12 @@ def describe(o):
     if n & {"Pow", "Pow2"}:
         return {"k": "pow", "z": float(o.z), "a": [describe(o.base)]}
     if "SProd" in n:
-        return {"k": "sprod", "s": float(o.scalar), "a": [describe(o.base)]}
+        sc = o.scalar
+        try:
+            sc = float(sc)
+        except TypeError:                               # an OPERATOR in the place of the scalar (never on a correct recording)
+            return {"k": "sprod<op>", "s": f"<{type(sc).__name__}>", "a": [describe(o.base)]}
+        return {"k": "sprod", "s": sc, "a": [describe(o.base)]}
     if "Prod" in n:
         return _flat("prod", [describe(x) for x in o.operands])
     if "Sum" in n:
@@ -323,6 +328,27 @@ def close(a, b, tol=1e-6):
     return a == b
 
 
+def diff_sig(g, e):
+    """where two terms differ, as a short stable signature: the chain of node kinds down to the first difference"""
+    if g.get("k") != e.get("k"):
+        return f"{e.get('k')}->{g.get('k')}"
+    k = e["k"]
+    if k == "g":
+        for f, what in (("name", "name"), ("w", "wires"), ("p", "params")):
+            if not close(g.get(f), e.get(f)):
+                return f"g:{what}"
+    ga, ea = g.get("a", []), e.get("a", [])
+    for x, y in zip(ga, ea):
+        if not close(x, y):
+            return f"{k}/" + diff_sig(x, y)
+    if len(ga) != len(ea):
+        return f"{k}:arity"
+    for f in e:
+        if f not in ("k", "a") and not close(g.get(f), e.get(f)):
+            return f"{k}:{f}"
+    return f"{k}:?"
+
+
 def first_diff(got, exp):
     """None | (clause, detail) comparing two tape descriptions"""
     for part in ("ops", "meas"):
@@ -333,9 +359,10 @@ def first_diff(got, exp):
             if i >= len(e):
                 return f"extra-{part}", f"{part}[{i}]: unexpected {g[i]}"
             if not close(g[i], e[i]):
-                what = "order-or-operator" if g[i].get("k") != e[i].get("k") or g[i].get("name") != e[i].get("name") else \
-                       ("wires" if g[i].get("w") != e[i].get("w") else "term")
-                return f"{part}-{what}", f"{part}[{i}]: expected {e[i]}, got {g[i]}"
+                sig = diff_sig(g[i], e[i])
+                # an operator taken for a scalar (op + composite under capture): one key whatever surrounds it
+                sig = "operator-used-as-scalar" if sig.endswith("->sprod<op>") else "/".join(sig.split("/")[-2:])
+                return f"{part}:{sig}", f"{part}[{i}]: expected {e[i]}, got {g[i]}"
     return None
 
 
